@@ -131,6 +131,14 @@ impl<'a> TXT<'a> {
     }
 }
 
+#[cfg(simple_dns_verif)]
+impl<'a> TXT<'a> {
+    /// The raw bytes of each character-string of this record (verification harness only)
+    pub fn verif_strings(&self) -> Vec<&[u8]> {
+        self.strings.iter().map(|s| &s.data[..]).collect()
+    }
+}
+
 impl<'a> TryFrom<HashMap<String, Option<String>>> for TXT<'a> {
     type Error = crate::SimpleDnsError;
 
